@@ -1,19 +1,34 @@
 /- GENERATED: instance obligations for one logic, discharged by kernel evaluation.
-   `X ⊆ known`: every failing row is a committed known finding (Ptx/Gen/Known.lean). -/
+   `S` = the logic with its DOCUMENTED tables (Ptx/Sem/Spec.lean); rules, closure, trunk and frames
+   are what the translator read off the code.  `X ⊆ known`: every failing row is a committed
+   known finding (Ptx/Gen/Known.lean, generated from known_findings.json). -/
 import Ptx.Gen.L_LP
 import Ptx.Gen.Known
 import Ptx.Sem.Subset
+import Ptx.Props.C01
 namespace Ptx.Gen.Obl.LP
 open Ptx
 
-theorem tables_total : Gen.LP.tablesTotalB = true := by decide +kernel
-theorem rules_exact : subsetB Gen.LP.badRules (Known.badRules "LP") = true := by decide +kernel
-theorem rules_sound : subsetB Gen.LP.unsoundRules (Known.unsoundRules "LP") = true := by decide +kernel
-theorem rules_total : subsetB Gen.LP.missingRules (Known.missingRules "LP") = true := by decide +kernel
-theorem rules_local : Gen.LP.nonLocalRules = [] := by decide +kernel
-theorem closure_total : Gen.LP.closureTotalB = true := by decide +kernel
-theorem closure_exact : subsetB Gen.LP.badClosure (Known.badClosure "LP") = true := by decide +kernel
-theorem read_total : Gen.LP.readTotalB = true := by decide +kernel
-theorem read_exact : subsetB Gen.LP.badRead (Known.badRead "LP") = true := by decide +kernel
+/-- a modal / first-order extension has exactly the truth-functional tables of its base (LP) -/
+theorem base_tables : Gen.LP.tables.sameTF Gen.LP.tables = true := by decide +kernel
+theorem spec_defined : Gen.LP.specDefinedB = true := by decide +kernel
+theorem tables_spec : subsetB Gen.LP.tableDiff (Known.tableDiff "LP") = true := by decide +kernel
+theorem defined_ops : Gen.LP.tables.definedOpsBad = [] := by decide +kernel
+theorem tables_total : Gen.LP.sem.tablesTotalB = true := by decide +kernel
+theorem rules_exact : subsetB Gen.LP.sem.badRules (Known.badRules "LP") = true := by decide +kernel
+theorem rules_sound : subsetB Gen.LP.sem.unsoundRules (Known.unsoundRules "LP") = true := by decide +kernel
+theorem rules_total : subsetB Gen.LP.sem.missingRules (Known.missingRules "LP") = true := by decide +kernel
+theorem rules_local : Gen.LP.sem.nonLocalRules = [] := by decide +kernel
+theorem closure_total : Gen.LP.sem.closureTotalB = true := by decide +kernel
+theorem closure_exact : subsetB Gen.LP.sem.badClosure (Known.badClosure "LP") = true := by decide +kernel
+theorem read_total : Gen.LP.sem.readTotalB = true := by decide +kernel
+theorem read_exact : subsetB Gen.LP.sem.badRead (Known.badRead "LP") = true := by decide +kernel
+theorem sound_core : Gen.LP.sem.soundCoreB = true := by decide +kernel
+
+/-- C01 for this logic: a closed tableau reached by any legal derivation has no countermodel. -/
+theorem c01_valid_sound (arg : Argument) (t : Tableau)
+    (hd : Deriv Gen.LP.sem.soundPart.noQuantPart (trunk Gen.LP.sem arg) t) (hclosed : t.allClosed = true)
+    (M : Struct) (hM : M.Interp Gen.LP.sem) (e : Env M.D) (w0 : M.W) : ¬ Countermodel Gen.LP.sem M e w0 arg :=
+  Props.C01.C01_valid_sound_partial Gen.LP.sem sound_core arg t hd hclosed M hM e w0
 
 end Ptx.Gen.Obl.LP
